@@ -25,6 +25,7 @@ type TyJ struct {
 type FldJ struct {
 	ID   int    `json:"id"`
 	Name string `json:"name"`
+	Key  B      `json:"key"` // alias (api.key); defaults to the name
 	Req  string `json:"req"`
 	Ty   TyJ    `json:"ty"`
 }
@@ -61,6 +62,9 @@ func tyName(t TyJ) string {
 	case tDBL:
 		return "double"
 	case tSTR:
+		if t.N == "binary" {
+			return "binary"
+		}
 		return "string"
 	case tSTRUCT:
 		return t.N
@@ -95,7 +99,11 @@ func printIDL(d DescJ) string {
 	for _, n := range names {
 		fmt.Fprintf(&sb, "struct %s {\n", n)
 		for _, f := range d.Structs[n] {
-			fmt.Fprintf(&sb, "  %d: %s%s %s\n", f.ID, reqWord(f.Req), tyName(f.Ty), f.Name)
+			anno := ""
+			if len(f.Key) > 0 && string(f.Key) != f.Name {
+				anno = fmt.Sprintf(" (api.key = %q)", string(f.Key))
+			}
+			fmt.Fprintf(&sb, "  %d: %s%s %s%s\n", f.ID, reqWord(f.Req), tyName(f.Ty), f.Name, anno)
 		}
 		sb.WriteString("}\n")
 	}
@@ -121,12 +129,18 @@ func normDesc(d *DescJ) {
 		}
 		for i := range fs {
 			normTy(&fs[i].Ty)
+			if len(fs[i].Key) == 0 {
+				fs[i].Key = B(fs[i].Name)
+			}
 		}
 	}
 }
 
 func dumpTy(td *thrift.TypeDescriptor, out map[string][]FldJ) TyJ {
 	t := TyJ{T: int(td.Type()), A: []TyJ{}}
+	if td.Type() == thrift.STRING && td.IsBinary() {
+		t.N = "binary"
+	}
 	switch td.Type() {
 	case thrift.STRUCT:
 		st := td.Struct()
@@ -145,7 +159,7 @@ func dumpTy(td *thrift.TypeDescriptor, out map[string][]FldJ) TyJ {
 				case thrift.OptionalRequireness:
 					req = "opt"
 				}
-				fs = append(fs, FldJ{ID: int(f.ID()), Name: f.Name(), Req: req, Ty: dumpTy(f.Type(), out)})
+				fs = append(fs, FldJ{ID: int(f.ID()), Name: f.Name(), Key: B(f.Alias()), Req: req, Ty: dumpTy(f.Type(), out)})
 			}
 			sort.Slice(fs, func(i, j int) bool { return fs[i].ID < fs[j].ID })
 			out[t.N] = fs
